@@ -198,8 +198,9 @@ def project_session(ph, orc, S, P, layout, store, fck, scale, cid):
         raise ProjectionError("shortest vectors off the 1/D grid by %g" % worst)
     pm = np.array(prim.masses, dtype=float)
     pmi = np.rint(pm)
-    if np.abs(pm - pmi).max() > 1e-9:
-        raise ProjectionError("primitive masses are not the catalogue's integers")
+    if not (np.isfinite(pm).all() and (pm > 0).all() and pm.max() < 2000):
+        raise ProjectionError("primitive masses are not positive finite numbers: %r" % (pm.tolist(),))
+    pmu = np.rint(pm * 1e6)   # micro-units: a mass that is not the catalogue's integer is decided by TLC (ReqMasses)
     # propagation of masses to the three cells (Phonopy.masses setter)
     t = scale["t"]
     s_ok = all(abs(sc.masses[k] - t * orc.masses[atoms[k]["a"] - 1]) < 1e-9 for k in range(ns))
@@ -207,7 +208,7 @@ def project_session(ph, orc, S, P, layout, store, fck, scale, cid):
     u_ok = all(abs(uc.masses[a] - t * orc.masses[a]) < 1e-9 for a in range(len(uc)))
     return dict(id=cid, entry=orc.o["entry"], S=[list(map(int, r)) for r in S], Pn=P[0], Pd=P[1], atoms=atoms,
                 p2s=[int(v) + 1 for v in prim.p2s_map], s2p=[int(v) + 1 for v in prim.s2p_map],
-                pmass=[int(v) for v in pmi], svecs=tab, mult=mult, layout=layout, store=store,
+                pmass=[int(v) for v in pmi], pmassU=[int(v) for v in pmu], svecs=tab, mult=mult, layout=layout, store=store,
                 fck=fck, scale=scale, massOK=bool(s_ok and u_ok), cbox=cbox_for(S, P))
 
 
@@ -295,6 +296,7 @@ def binding_selfcheck(ctx, ev, orc):
 
     def badmass(e):
         e["pmass"][0] += 1
+        e["pmassU"][0] += 1000000
     mut("mass", ["Masses"], badmass)
     if len(ev["p2s"]) > 1:
         def swapped(e):
